@@ -514,12 +514,17 @@ def run(ctx):
                     continue
                 A = g[kind]
                 args0 = (A.copy(), g['ci'].copy()) if m['labels'] else (A.copy(),)
+                ctx.take_variants()
                 r0, e0 = safe(m['f'], *args0)
+                v0 = ctx.take_variants() or []       # input-representation layer: the two calls of a pair may run on different representations
                 for p in perms:
                     Ap = A[np.ix_(p, p)].copy()
                     args1 = (Ap, g['ci'][p].copy()) if m['labels'] else (Ap,)
                     r1, e1 = safe(m['f'], *args1)
+                    v1 = ctx.take_variants() or []
                     case = {'measure': m['name'], 'kind': kind, 'graph': g['name'], 'A': A.tolist(), 'perm': p.tolist()}
+                    if v0 or v1:
+                        case['_input_variant'] = v0 + v1
                     if m['labels']:
                         case['ci'] = g['ci'].tolist()
                     ctx.case(case, nontrivial=bool(A.any()) and not np.array_equal(p, np.arange(n)))
@@ -542,7 +547,9 @@ def run(ctx):
     cg = cg[:ctx.scale(34, 200)]
     for g in cg:
         for name, line, want, exact, case in corr_entries(bct, g):
+            ctx.take_variants()
             w, err = safe(want)
+            case = ctx.tag_case(case)
             if err is not None:
                 # the implementation raises where the term has a value: only the two documented-as-is cases are tolerated
                 if (name.split(':')[0], err) in RAISES_OK:
@@ -558,21 +565,24 @@ def run(ctx):
             continue
         for kind in ('bu', 'wu'):
             A = g[kind]
+            ctx.take_variants()
             r, err = safe(lambda: _pagerank_raw(bct, A, 0.85))
             if err is None:
                 lines.append(enc_case(40, 0, A, [F(float(x)) for x in r], [F(0.85)]))
-                pend.append(('pagerank_centrality:equation', None, 'const', {'measure': 'pagerank residual', 'A': A.tolist()}))
+                pend.append(('pagerank_centrality:equation', None, 'const', ctx.tag_case({'measure': 'pagerank residual', 'A': A.tolist()})))
         if connected(g['bu']):
+            ctx.take_variants()
             v, err = safe(bct.eigenvector_centrality_und, g['bu'])
             if err is None:
                 lam = float(np.max(np.linalg.eigvalsh(g['bu'])))
                 lines.append(enc_case(41, 0, g['bu'], [F(float(x)) for x in v], [F(lam)]))
-                pend.append(('eigenvector_centrality_und:equation', None, 'zero', {'measure': 'eigenvector residual', 'A': g['bu'].tolist()}))
+                pend.append(('eigenvector_centrality_und:equation', None, 'zero', ctx.tag_case({'measure': 'eigenvector residual', 'A': g['bu'].tolist()})))
         if n <= 5:
+            ctx.take_variants()
             s, err = safe(bct.subgraph_centrality, g['bu'])
             if err is None:
                 lines.append(enc_case(42, 30, g['bu']))
-                pend.append(('subgraph_centrality:series', np.asarray(s, float).reshape(1, -1), False, {'measure': 'subgraph truncation K=30', 'A': g['bu'].tolist()}))
+                pend.append(('subgraph_centrality:series', np.asarray(s, float).reshape(1, -1), False, ctx.tag_case({'measure': 'subgraph truncation K=30', 'A': g['bu'].tolist()})))
     res = run_model(ID, lines)
     ctx.model_cases = len(lines)
     for (name, w, exact, case), m in zip(pend, res):
